@@ -4,6 +4,9 @@ import (
 	"crypto/hmac"
 	"time"
 
+	"github.com/cenkalti/backoff/v4"
+	"github.com/gebn/bmc/internal/pkg/transport"
+
 	"github.com/gebn/bmc/pkg/ipmi"
 
 	"github.com/google/gopacket"
@@ -27,7 +30,14 @@ type vSession struct {
 // the sequence-number pre-state are arbitrary.
 func vNewSession(auth, integ int) *vSession {
 	ft := &vFakeTransport{}
-	slt := vNewSessionless(ft)
+	return vNewSessionOn(ft, ft, auth, integ)
+}
+
+// vNewSessionOn builds the session on any transport (ft, if not nil, is the recording
+// fake behind it).
+func vNewSessionOn(t transport.Transport, ft *vFakeTransport, auth, integ int) *vSession {
+	slt := newV2SessionlessTransport(t, &dialConfig{timeout: time.Second})
+	slt.backoff = &backoff.ZeroBackOff{}
 	_, sz := refAuthHash(auth)
 	sik := vBytes(sz)
 	params, err := algorithmAuthenticationHashGenerator(ipmi.AuthenticationAlgorithm(auth))
